@@ -1,39 +1,63 @@
 #!/usr/bin/env python3
-"""Run the registered quick (or thorough) checks against every seeded change under /verif/seeded:
-apply patch.diff to /repo, run the check of the property named in meta.json, expect exit 1 with a VIOLATION line,
-undo the patch.  Usage: tools/run_seeded.py [--tier quick|thorough] [ids...]"""
+"""Run the registered checks against every seeded change under /verif/seeded.
+
+For each seeded/<id>: a scratch worktree of /repo (HEAD) gets patch.diff applied, the check of each property named
+in meta.json runs against THAT checkout (VERIF_REPO, see check.py: scratch harness build, scratch evidence), and a
+VIOLATION with exit 1 is expected.  /repo itself is never modified.  With --in-place the patch is applied to /repo
+(git apply / git checkout -- .) and the plain registered command is run instead.
+Usage: tools/run_seeded.py [--tier quick|thorough] [--in-place] [ids...]"""
 import json, os, subprocess, sys, time
 ROOT = os.path.dirname(os.path.dirname(os.path.abspath(__file__)))
+WT = "/tmp/verif_seedrun"
+def sh(*a, **k):
+    return subprocess.run(list(a), capture_output=True, text=True, **k)
 def main():
     args = sys.argv[1:]
     tier = "quick"
     if "--tier" in args:
         i = args.index("--tier"); tier = args[i + 1]; del args[i:i + 2]
+    inplace = "--in-place" in args
+    if inplace:
+        args.remove("--in-place")
     ids = args or sorted(d for d in os.listdir(os.path.join(ROOT, "seeded")) if os.path.isdir(os.path.join(ROOT, "seeded", d)))
     results = {}
-    for sid in ids:
-        d = os.path.join(ROOT, "seeded", sid)
-        meta = json.load(open(os.path.join(d, "meta.json")))
-        patch = os.path.join(d, "patch.diff")
-        if subprocess.run(["git", "-C", "/repo", "status", "--porcelain", "--untracked-files=no"], capture_output=True, text=True).stdout.strip():
-            print("refusing: /repo has local modifications"); return 2
-        r = subprocess.run(["git", "-C", "/repo", "apply", patch], capture_output=True, text=True)
+    repo = "/repo"
+    if not inplace:
+        sh("git", "-C", "/repo", "worktree", "remove", "--force", WT)
+        r = sh("git", "-C", "/repo", "worktree", "add", "--detach", WT, "HEAD")
         if r.returncode != 0:
-            print(sid, "PATCH DOES NOT APPLY", r.stderr[:300]); results[sid] = "noapply"; continue
-        try:
-            outcomes = []
-            for prop in meta["properties"]:
-                t = time.time()
-                r = subprocess.run([sys.executable, os.path.join(ROOT, "check.py"), prop, "--tier", tier], cwd=ROOT, capture_output=True, text=True)
-                viol = [l for l in r.stdout.splitlines() if l.startswith("VIOLATION")]
-                outcomes.append((prop, r.returncode, len(viol), round(time.time() - t)))
-                detail = [l for l in r.stdout.splitlines() if l.startswith("  event=")][:3]
-                print(f"{sid}: {prop} exit={r.returncode} violations={len(viol)} {detail} ({outcomes[-1][3]}s)", flush=True)
-                if r.returncode == 2:
-                    print("   ", r.stdout[-600:])
-            results[sid] = "caught" if any(o[1] == 1 and o[2] > 0 for o in outcomes) else "MISSED"
-        finally:
-            subprocess.run(["git", "-C", "/repo", "checkout", "--", "."], check=True)
+            print(r.stderr); return 2
+        repo = WT
+    try:
+        for sid in ids:
+            d = os.path.join(ROOT, "seeded", sid)
+            meta = json.load(open(os.path.join(d, "meta.json")))
+            patch = os.path.join(d, "patch.diff")
+            if sh("git", "-C", repo, "status", "--porcelain", "--untracked-files=no").stdout.strip():
+                print(f"refusing: {repo} has local modifications"); return 2
+            r = sh("git", "-C", repo, "apply", patch)
+            if r.returncode != 0:
+                print(sid, "PATCH DOES NOT APPLY", r.stderr[:300]); results[sid] = "noapply"; continue
+            try:
+                outcomes = []
+                env = dict(os.environ)
+                if not inplace:
+                    env["VERIF_REPO"] = repo
+                for prop in meta["properties"]:
+                    t = time.time()
+                    r = subprocess.run([sys.executable, os.path.join(ROOT, "check.py"), prop, "--tier", tier], cwd=ROOT, capture_output=True, text=True, env=env)
+                    viol = [l for l in r.stdout.splitlines() if l.startswith("VIOLATION")]
+                    outcomes.append((prop, r.returncode, len(viol), round(time.time() - t)))
+                    detail = [l for l in r.stdout.splitlines() if l.startswith("  event=")][:3]
+                    print(f"{sid}: {prop} exit={r.returncode} violations={len(viol)} {detail} ({outcomes[-1][3]}s)", flush=True)
+                    if r.returncode == 2:
+                        print("   ", r.stdout[-600:])
+                results[sid] = "caught" if any(o[1] == 1 and o[2] > 0 for o in outcomes) else "MISSED"
+            finally:
+                subprocess.run(["git", "-C", repo, "checkout", "--", "."], check=True)
+    finally:
+        if not inplace:
+            sh("git", "-C", "/repo", "worktree", "remove", "--force", WT)
     print(json.dumps(results, indent=1))
     return 0 if all(v == "caught" for v in results.values()) else 1
 if __name__ == "__main__":
